@@ -236,11 +236,11 @@ CLAIMED = {
          "are total functions. Model tied to the code by exact differentials on encoder sequences and on the decoder over encoder "
          "output / mutations / random bytes / fragmentations; ORACLES: round trip with identical tables, fragment independence"),
    note=("The round-trip half (integers, Huffman, strings, fields, header blocks, table-size schedules, table synchrony; "
-         "SetMaxDynamicTableSizeLimit schedules not covered), fragment independence and the table bound are theorems about the "
+         "SetMaxDynamicTableSizeLimit schedules are decided by the round-trip oracle and the encoder differential, not by block_roundtrip_after_resize), fragment independence and the table bound are theorems about the "
          "model; 'what RFC 7541 specifies' for arbitrary bytes is the model itself (a transliteration) plus the rejection theorems "
          "(size_update_limited, eos_rejected), tied to the code by the differential. "
          "Trusted: Lean kernel + standard axioms (decide +kernel uses kernel evaluation, no extra axioms); translator; harness. The "
-         "server links x/net v0.19.0's copy of hpack, not this one. Found and fixed D6 and D12"),
+         "server links x/net v0.19.0's copy of hpack, not this one. Found and fixed D6, D12 and D21 (limit shrink not signalled)"),
    technique="Lean 4 theorems over a full executable model + regenerated tables + differential with round-trip / fragmentation oracles",
    design='7/C18'),
  'C19': dict(
